@@ -59,7 +59,7 @@ def run_sessions(c, codecs, pids, n_random, n_exh, extra_reqs=(), big=False):
     for kx, se in crashes[:6]:
         c.violation("session crashed (%s): %s" % (reqs[kx].desc(), ans[kx][:160]), "session-crash",
                     {"stream": "dec", "request": lines[kx], "stderr": se})
-    rs_req, rs_idx, it_req, it_idx, ml_req, ml_idx = [], [], [], [], [], []
+    rs_req, rs_idx, it_req, it_idx, ml_req, ml_idx, ev_req, ev_idx = [], [], [], [], [], [], [], []
     prem_seen = set()
     nontrivial = set()
     for i, (q, al) in enumerate(zip(reqs, ans)):
@@ -74,6 +74,11 @@ def run_sessions(c, codecs, pids, n_random, n_exh, extra_reqs=(), big=False):
             nontrivial.add(lines[i])
         c.dist("codec%d" % q.codec); c.dist("api%d" % q.api); c.dist("cb%d" % q.cb); c.dist("finish%d" % q.finish)
         c.dist("complete" if (a.F and a.F[1]) or (a.steps and a.steps[-1][1]) else "incomplete")
+        if q.codec in (sessions.LDPC, sessions.P2D) and q.cb != 0 and a.H is not None and (q.finish == 0 or a.PM is not None) and q.k + q.r <= 400 and not (fails or a.P != 0 or a.Q != 0):
+            # callback log (order included) vs the logged decoder models
+            ev_req.append("Z %d %d %d %s %s %s %d %s %s" % (q.k, q.r, q.L, "1" if a.LN == "1" else "0", a.Hs, a.Ys, q.finish, a.PM or "-",
+                                                            " ".join(map(str, q.esis if q.api == 0 else sorted(set(q.esis))))))
+            ev_idx.append(i)
         if fails or a.P != 0 or a.Q != 0:
             continue
         if q.codec in (sessions.RS28, sessions.RS2M):
@@ -126,6 +131,16 @@ def run_sessions(c, codecs, pids, n_random, n_exh, extra_reqs=(), big=False):
                         if v != "-" and s < len(a.Y) and v != a.Y[s]:
                             c.proof_failed.append({"correspondence": "dec/it-values", "request": lines[i][:400], "source": s, "model": v, "encoded": a.Y[s]})
                             break
+        if ev_req:
+            rc, mout, _ = vlib.sh([mexe], input="\n".join(ev_req) + "\n", timeout=3000)
+            ml = mout.splitlines()
+            for j, i in enumerate(ev_idx):
+                a = ldpc.Ans(ans[i])
+                want = ",".join(x.split(":")[0] for x in a.CB)
+                got = ml[j][2:].strip() if j < len(ml) else "?"
+                if got != want:
+                    c.proof_failed.append({"correspondence": "dec/callback-log", "request": lines[i][:400], "c": want[:800], "model": got[:800], "model_request": ev_req[j][:3000]})
+                    break
         if ml_req:
             rc, mout, _ = vlib.sh([mexe], input="\n".join(ml_req) + "\n", timeout=3000)
             ml = mout.splitlines()
@@ -150,7 +165,7 @@ def run_sessions(c, codecs, pids, n_random, n_exh, extra_reqs=(), big=False):
         c.proof_failed.append({"model_build": str(e)[-1500:]})
     c.cov["evaluations"] = c.cov.get("evaluations", 0) + len(reqs)
     c.cov["distinct_nontrivial"] = c.cov.get("distinct_nontrivial", 0) + len(nontrivial)
-    c.cov["traces_validated_against_impl"] = c.cov.get("traces_validated_against_impl", 0) + len(rs_idx) + len(it_idx) + len(ml_idx)
+    c.cov["traces_validated_against_impl"] = c.cov.get("traces_validated_against_impl", 0) + len(rs_idx) + len(it_idx) + len(ml_idx) + len(ev_idx)
     if not c.cov["samples"]:
         c.cov["samples"] = [lines[0][:200], lines[len(lines) // 2][:200], lines[-1][:200]]
     c.cov["rule"] = ("one request = one full life cycle (encoder session builds all repair symbols; decoder session gets a list of ESIs through of_decode_with_new_symbol "
